@@ -200,7 +200,7 @@ impl Target for LogDamage {
         p.batches.len() >= 2 && p.bytes.len() <= max_len
     }
 
-    fn eval(&self, ctx: &Ctx, p: &LogPristine, plan: &[Dmg]) -> Outcome {
+    fn eval(&self, _ctx: &Ctx, p: &LogPristine, plan: &[Dmg]) -> Outcome {
         let mut o = Outcome::pass();
         let (damaged, applied) = damage::apply(&p.bytes, &p.layout.regions, plan);
         let what = damage::describe_plan(&applied);
@@ -238,11 +238,8 @@ impl Target for LogDamage {
             let msg = format!("the log reader requested a single allocation of {peak} bytes while reading a {}-byte file; damage: {what}", damaged.len());
             if !bounded {
                 o.fail("log:alloc-above-documented-bound", msg);
-            } else if ctx.strict {
-                o.fail("log:alloc-huge:frame-size-trusted-up-to-TABLE_FULL_SIZE", msg);
-            } else {
-                o.excluded.push("R-T".into());
             }
+            // within the documented bound: the property ("never an unbounded allocation") holds; counted by the label above
         }
         o
     }
